@@ -15,6 +15,10 @@ CONSTANTS
   WithInject = TRUE
   CheckSig = TRUE
   CoverAll = TRUE
+  Addrs = {"a_orig", "a_att", "a_x"}
+  MaxAcq = 16
+  EarlyBook = FALSE
+  TrustSource = FALSE
 INVARIANT TraceAccepted
 INVARIANT TypeOK
 INVARIANT AuthOnly
@@ -22,3 +26,5 @@ INVARIANT NoForgedVerified
 INVARIANT OverlaySeparation
 INVARIANT HonestAttribution
 INVARIANT Unforgeable
+INVARIANT BookLegit
+INVARIANT BookNoKeyEmpty
